@@ -17,6 +17,7 @@ where a theorem needs it, `(keys o).Nodup` states that a dict has unique keys.
 -/
 import GemseoVerif.Lemmas.C20
 import GemseoVerif.Lemmas.C20Life
+import GemseoVerif.Lemmas.C20Analytic
 import GemseoVerif.Gen.C20Table
 
 namespace GV.C20
@@ -537,6 +538,94 @@ example :
     r.1.2.cache.lookup r.1.1 (33/32) = some 2 ∧
     (HCache.attach r.1.1 r.1.2.init).lookup r.1.1 (33/32) = none ∧
     (HCache.setstate r.1.1 r.1.2.cache.getstate).lookup r.1.1 2 = none := by
+  decide +kernel
+
+/-! ### Restored by another interpreter (`spawn` workers, a later session): `AnalyticDiscipline`
+
+The writer's interpreter `Ew` and the reader's `Er` iterate over sets in different orders (another string-hash
+seed); nothing is assumed about the orders but that every member is yielded (`Env.Covers`).  A dict has unique
+keys: `(keys exprs).Nodup`. -/
+
+/-- **analytic_outputs_any_interpreter.**  Whatever the interpreter that created (or restored) it, the
+    discipline returns the values of its expressions and of their derivatives: the positional arguments of
+    the lambdified functions and the order in which `_run` passes the values were computed by the *same*
+    interpreter. -/
+theorem analytic_outputs_any_interpreter (E : Env) (hE : E.Covers) (exprs : List (String × Poly))
+    (hn : (keys exprs).Nodup) (ρ : String → Rat) :
+    (AD.create E exprs).run ρ = exprs.map (fun op => (op.1, op.2.eval ρ)) ∧
+    ∀ o p, (o, p) ∈ exprs → ∀ n ∈ p.symbols, (AD.create E exprs).jacEntry ρ o n = some ((p.diff n).eval ρ) :=
+  ⟨run_create E hE exprs hn ρ, fun o p hop n hs => jacEntry_create E hE exprs hn ρ o p hop n hs⟩
+
+/-- **analytic_restored_by_another_interpreter.**  The discipline pickled by interpreter `Ew` and restored by
+    interpreter `Er` returns, for every input, the outputs and the Jacobian entries of the original. -/
+theorem analytic_restored_by_another_interpreter (Ew Er : Env) (hw : Ew.Covers) (hr : Er.Covers)
+    (exprs : List (String × Poly)) (hn : (keys exprs).Nodup) (ρ : String → Rat) :
+    (AD.setstate Er (AD.create Ew exprs).getstate).run ρ = (AD.create Ew exprs).run ρ ∧
+    ∀ o p, (o, p) ∈ exprs → ∀ n ∈ p.symbols,
+      (AD.setstate Er (AD.create Ew exprs).getstate).jacEntry ρ o n = (AD.create Ew exprs).jacEntry ρ o n := by
+  have e : AD.setstate Er (AD.create Ew exprs).getstate = AD.create Er exprs := rfl
+  rw [e]
+  refine ⟨by rw [run_create Er hr exprs hn ρ, run_create Ew hw exprs hn ρ], fun o p hop n hs => ?_⟩
+  rw [jacEntry_create Er hr exprs hn ρ o p hop n hs, jacEntry_create Ew hw exprs hn ρ o p hop n hs]
+
+/-- **analytic_restored_generations.**  … and so does the copy of the copy of …, each restored by yet another
+    interpreter (a pickle handed from worker to worker). -/
+theorem analytic_restored_generations (E0 : Env) (h0 : E0.Covers) (envs : List Env) (he : ∀ E ∈ envs, E.Covers)
+    (exprs : List (String × Poly)) (hn : (keys exprs).Nodup) (ρ : String → Rat) :
+    (envs.foldl (fun a E => AD.setstate E a.getstate) (AD.create E0 exprs)).run ρ = (AD.create E0 exprs).run ρ ∧
+    ∀ o p, (o, p) ∈ exprs → ∀ n ∈ p.symbols,
+      (envs.foldl (fun a E => AD.setstate E a.getstate) (AD.create E0 exprs)).jacEntry ρ o n
+        = (AD.create E0 exprs).jacEntry ρ o n := by
+  have key : ∀ (envs : List Env) (E : Env), E.Covers → (∀ E' ∈ envs, E'.Covers) →
+      ∃ E', E'.Covers ∧ envs.foldl (fun a E => AD.setstate E a.getstate) (AD.create E exprs) = AD.create E' exprs := by
+    intro envs
+    induction envs with
+    | nil => intro E hE _; exact ⟨E, hE, rfl⟩
+    | cons E1 r ih =>
+      intro E _ hall
+      have e : AD.setstate E1 (AD.create E exprs).getstate = AD.create E1 exprs := rfl
+      simp only [List.foldl_cons, e]
+      exact ih E1 (hall E1 List.mem_cons_self) (fun E' h' => hall E' (List.mem_cons_of_mem _ h'))
+  obtain ⟨E', hE', e⟩ := key envs E0 h0 he
+  rw [e]
+  refine ⟨by rw [run_create E' hE' exprs hn ρ, run_create E0 h0 exprs hn ρ], fun o p hop n hs => ?_⟩
+  rw [jacEntry_create E' hE' exprs hn ρ o p hop n hs, jacEntry_create E0 h0 exprs hn ρ o p hop n hs]
+
+/-- **analytic_relambdify_same_interpreter.**  Why round trips inside one process cannot tell: restoring with
+    `_lambdify_expressions` alone (the tempting shortcut, everything else being pickled) gives back exactly the
+    original *when the reader is the writer's interpreter*. -/
+theorem analytic_relambdify_same_interpreter (E : Env) (exprs : List (String × Poly)) :
+    (AD.setstateRelambdify E (AD.create E exprs).getstate).run = (AD.create E exprs).run ∧
+    (AD.setstateRelambdify E (AD.create E exprs).getstate).jac = (AD.create E exprs).jac := ⟨rfl, rfl⟩
+
+example : Env.Covers id := fun _ _ h => h
+example : Env.Covers List.reverse := fun _ _ h => List.mem_reverse.mpr h
+
+/- Non-vacuity (the seeded change r2m3): `y = a - 2 b` written by an interpreter iterating `{a, b}` as `a, b`,
+   read by one iterating it as `b, a`, evaluated at `a = 1, b = 2`: the restored discipline returns `-3` like
+   the original; restoring with `_lambdify_expressions` alone pairs the pickled order `a, b` with the reader's
+   positional arguments `b, a` and returns `2 - 2·1 = 0`; the Jacobian of the shortcut is still right (its
+   functions take the pickled order), exactly what the seeded change showed. -/
+example :
+    let exprs : List (String × Poly) := [("y", [(1, ["a"]), (-2, ["b"])])]
+    let ρ : String → Rat := fun n => if n = "a" then 1 else if n = "b" then 2 else 0
+    (AD.create id exprs).run ρ = [("y", -3)] ∧
+    (AD.setstate List.reverse (AD.create id exprs).getstate).run ρ = [("y", -3)] ∧
+    (AD.setstateRelambdify List.reverse (AD.create id exprs).getstate).run ρ = [("y", 0)] ∧
+    (AD.setstate List.reverse (AD.create id exprs).getstate).jacEntry ρ "y" "b" = some (-2) ∧
+    (AD.setstateRelambdify List.reverse (AD.create id exprs).getstate).jacEntry ρ "y" "b" = some (-2) ∧
+    (AD.setstate List.reverse (AD.create id exprs).getstate).syms = [("y", ["b", "a"])] ∧
+    (AD.create id exprs).syms = [("y", ["a", "b"])] := by
+  decide +kernel
+
+/- … with a product and a square: `z = 3 a b - a²` at `a = 1/2, b = 4`. -/
+example :
+    let exprs : List (String × Poly) := [("z", [(3, ["a", "b"]), (-1, ["a", "a"])])]
+    let ρ : String → Rat := fun n => if n = "a" then 1/2 else if n = "b" then 4 else 0
+    (AD.setstate List.reverse (AD.create id exprs).getstate).run ρ = [("z", 23/4)] ∧
+    (AD.setstate List.reverse (AD.create id exprs).getstate).jacEntry ρ "z" "a" = some 11 ∧
+    (AD.setstate List.reverse (AD.create id exprs).getstate).jacEntry ρ "z" "b" = some (3/2) ∧
+    (AD.setstateRelambdify List.reverse (AD.create id exprs).getstate).run ρ = [("z", -10)] := by
   decide +kernel
 
 end GV.C20
